@@ -50,6 +50,8 @@ struct Facts {
     has_empty_variant: bool,
     /// generous bound on the nesting needed to finish every definition once
     static_depth: usize,
+    /// longest completion the generator is forced into after the depth budget is spent (see `facts`)
+    forced_depth: usize,
 }
 
 fn reachable(env: &REnv, ts: &[RType]) -> Vec<bool> {
@@ -143,6 +145,49 @@ fn facts(env: &REnv, ts: &[RType]) -> Facts {
             _ => 1,
         }
     }
+    // depth the generator still has to produce once the depth budget is used up: options are absent, vectors empty,
+    // variants take a case of finite size, records need every field (INF = no finite value that way)
+    const INF: usize = usize::MAX / 4;
+    fn forced(env: &REnv, t: &RType, stack: &mut Vec<usize>) -> usize {
+        match t {
+            RType::Ref(i) => {
+                if stack.contains(i) {
+                    return INF;
+                }
+                stack.push(*i);
+                let r = forced(env, &env.0[*i], stack);
+                stack.pop();
+                r
+            }
+            RType::Opt(_) | RType::Vec(_) => 1,
+            RType::Record(fs) => fs.iter().map(|f| forced(env, &f.1, stack)).max().unwrap_or(0).saturating_add(1).min(INF),
+            RType::Variant(fs) => {
+                let finite: Vec<usize> = fs.iter().map(|f| forced(env, &f.1, stack)).filter(|d| *d < INF).collect();
+                match finite.iter().max() {
+                    Some(m) => m + 1,
+                    None => INF,
+                }
+            }
+            _ => 1,
+        }
+    }
+    let mut forced_depth = 0usize;
+    {
+        let mut visit = |t: &RType| {
+            let d = forced(env, t, &mut Vec::new());
+            if d < INF {
+                forced_depth = forced_depth.max(d);
+            }
+        };
+        for t in ts {
+            scan(t, &mut visit);
+        }
+        for i in 0..n {
+            if reach[i] {
+                scan(&env.0[i], &mut visit);
+            }
+        }
+    }
     let static_depth = ts.iter().map(depth).max().unwrap_or(0)
         + (0..n).filter(|i| reach[*i]).map(|i| depth(&env.0[i])).sum::<usize>();
     Facts {
@@ -152,6 +197,7 @@ fn facts(env: &REnv, ts: &[RType]) -> Facts {
         has_empty,
         has_empty_variant,
         static_depth,
+        forced_depth,
     }
 }
 
@@ -849,6 +895,17 @@ fn judge(c: &Case) -> Verdict {
                     "value depth {vdepth} with configured depth {d} and static type depth {} (ratio {ratio:.1})",
                     f.static_depth
                 ),
+            ));
+        }
+        // the configured depth itself: every type node on a path costs one unit, and below zero only forced
+        // completions (absent option, empty vector, a finite variant case, all record fields) are produced
+        let bound = d.max(0) as f64 + f.forced_depth as f64 + 1.0;
+        v.maxima.push(("value-depth - (depth + forced completion)".into(), vdepth - bound));
+        // values supplied through the configuration are the user's own and may be deeper
+        if vdepth > bound && !c.config_class.contains("value") {
+            v.findings.push((
+                format!("budget|depth-exceeds-configured|type-class={tclass}"),
+                format!("value depth {vdepth} with configured depth {d}; the longest forced completion of the types is {} (bound {bound})", f.forced_depth),
             ));
         }
         // nodes: vectors and text are bounded by width, not by size; allow width^static_depth
